@@ -181,6 +181,20 @@ SLEEP_PROG = r'''
 '''
 
 
+INTR_PROG = r'''
+# an interrupting deadline guarding a fiber that never yields: each round must end with the deadline error, not before d elapsed
+(def ds [%s])
+(each d ds
+  (def f (coro (forever :busy)))
+  (def t0 (os/clock :monotonic))
+  (ev/deadline d nil f true)
+  (def r (protect (resume f)))
+  (def el (- (os/clock :monotonic) t0))
+  (print "I " d " " el " " (if (r 0) "returned" (string (r 1)))))
+(print "INTR-DONE")
+'''
+
+
 def run(ctx):
     exe = build.janet("plain")
     quick = ctx.tier == "quick"
@@ -247,3 +261,44 @@ def run(ctx):
             if float(el) < float(dd):
                 ctx.violation("sleep-returned-early", "ev/sleep %s returned after %s s" % (dd, el), files)
     core.pmap(sleeps, range(nsleep), jobs=4)
+
+    # rule 5: an interrupting deadline ends a busy fiber (bounded progress), under CPU contention from its sibling runs
+    nintr = 48 if quick else 480
+
+    def intr(i):
+        rng = random.Random(ctx.sub_seed("intr", i))
+        ds = [rng.choice([0.001, 0.002, 0.003, 0.005, 0.01, rng.random() * 0.01 + 0.0005]) for _ in range(30)]
+        script = INTR_PROG % " ".join(repr(x) for x in ds)
+        files = {"intr.janet": script}
+        hung = 0
+        for attempt in range(2):
+            d = core.case_dir()
+            path = os.path.join(d, "intr.janet")
+            open(path, "w").write(script)
+            res = core.run([exe, path], timeout=40)
+            core.discard(res)
+            out = res.out.decode(errors="replace")
+            if res.timed_out:
+                hung += 1
+                continue
+            if "INTR-DONE" not in out:
+                # the deadline error surfacing in the root task between two rounds is the documented default target (fiber/root)
+                if not ctx.check_result(res, files, where="interrupt-deadline"):
+                    return
+            for line in out.splitlines():
+                if not line.startswith("I "):
+                    continue
+                _, dd, el, what = line.split(" ", 3)
+                ctx.evals()
+                ctx.count("interrupt_deadlines")
+                ctx.nontriv(("intr", dd[:6]))
+                if what == "returned":
+                    ctx.violation("interrupt-deadline-returned", "busy fiber guarded by (ev/deadline %s nil f true) returned normally" % dd, files)
+                elif float(el) < float(dd):
+                    ctx.violation("interrupt-deadline-early", "(ev/deadline %s nil f true) cancelled after %s s" % (dd, el), files)
+            break
+        if hung == 2:
+            ctx.violation("interrupt-deadline-hang", "a busy fiber guarded by an interrupting ev/deadline was never cancelled (40 s watchdog, twice): %s" % ds[:5], files)
+        elif hung == 1:
+            ctx.count("interrupt_deadline_single_watchdog")
+    core.pmap(intr, range(nintr), jobs=16)
